@@ -72,6 +72,13 @@ TLA = [
     # an importer outside an async cycle requesting two of its members: it waits for the cycle root twice and is released twice
     ({"main": "import 'x'; import 'y'; print('main');", "x": "import 'y'; print('x:start'); await null; print('x:end');", "y": "import 'x'; print('y');"},
      ["main"], "trace=y,x:start,x:end,main outcomes=-"),
+    # a synchronous importer of an async module throws when it finally runs (inside AsyncModuleExecutionFulfilled of the dependency):
+    # the IMPORTER is rejected, the dependency stays evaluated (repaired: the engine rejected the wrong module and panicked)
+    ({"a": "import 'b'; print('a'); throw new Error('boom-a');", "b": "print('b:s'); await null; print('b:e');"}, ["a", "a", "b"],
+     "trace=b:s,b:e,a outcomes=boom-a,boom-a,-"),
+    # ... and its own importers are rejected with the same error, without running
+    ({"r": "import 'a'; print('r');", "a": "import 'b'; print('a'); throw new Error('boom-a');", "b": "print('b:s'); await null; print('b:e');",
+      "c": "import 'b'; print('c');"}, ["r", "c", "a"], "trace=b:s,b:e,a,c outcomes=boom-a,-,boom-a"),
     # evaluating an async graph twice runs nothing twice
     ({"main": "import 'x'; print('main');", "x": "print('x:start'); await null; print('x:end');"}, ["main", "main", "x"], "trace=x:start,x:end,main outcomes=-,-,-"),
 ]
@@ -113,6 +120,55 @@ def tla_graph(r):
         mods["m%d" % m] = "".join("import 'm%d'; " % d for d in deps[m]) + "print('m%d:s'); " % m + "await null; " * awaits[m] + "print('m%d:e');" % m
     roots = ["m0"] + (["m%d" % (r() % n)] if r() % 3 == 0 else [])
     return deps, awaits, mods, roots
+
+
+def tla_throw_graph(r):
+    """the same graphs with 1-2 modules that throw instead of printing their last line"""
+    deps, awaits, mods, roots = tla_graph(r)
+    n = len(deps)
+    throwers = sorted(set(r() % n for _ in range(1 + r() % 2)))
+    for t in throwers:
+        mods["m%d" % t] = mods["m%d" % t].replace("print('m%d:e');" % t, "throw new Error('boom%d');" % t)
+    roots = roots + ["m%d" % (r() % n)]
+    return deps, awaits, mods, roots, throwers
+
+
+def tla_throw_violation(deps, roots, throwers, trace, outcomes):
+    """oracle for async graphs with throwing modules (ECMA-262 16.2.1.5.3): every body at most once; a body starts only after
+    every non-cyclic dependency ENDED (a module that threw never prints its end, so its dependents never start); every Evaluate
+    settles; it is rejected — with the error of some reachable thrower — exactly when a thrower is reachable from its root"""
+    n = len(deps)
+    reach = [set(d) for d in deps]
+    changed = True
+    while changed:
+        changed = False
+        for a in range(n):
+            new = set().union(*[reach[b] for b in reach[a]]) if reach[a] else set()
+            if not new <= reach[a]:
+                reach[a] |= new
+                changed = True
+    pos = {}
+    for i, ev in enumerate(trace):
+        if ev in pos:
+            return "%s printed twice" % ev
+        pos[ev] = i
+    for x in range(n):
+        if "m%d:s" % x in pos:
+            for d in deps[x]:
+                if d != x and x not in reach[d] and ("m%d:e" % d not in pos or pos["m%d:e" % d] > pos["m%d:s" % x]):
+                    return "m%d started although its non-cyclic dependency m%d had not finished" % (x, d)
+    if len(outcomes) != len(roots):
+        return "%d outcomes for %d Evaluate calls" % (len(outcomes), len(roots))
+    for ro, o in zip(roots, outcomes):
+        k = int(ro[1:])
+        hit = sorted(t for t in throwers if t == k or t in reach[k])
+        if o == "pending":
+            return "Evaluate(%s) never settled" % ro
+        if hit and o not in ["boom%d" % t for t in hit]:
+            return "Evaluate(%s) = %s although it depends on the throwing module(s) %s" % (ro, o, hit)
+        if not hit and o != "-":
+            return "Evaluate(%s) rejected with %s although no throwing module is reachable from it" % (ro, o)
+    return None
 
 
 def tla_order_violation(deps, roots, trace):
@@ -256,6 +312,25 @@ def run(ck):
             tbad += 1
             ck.fail_input({"site": "top-level-await-order", "input": json.dumps(mods), "roots": roots, "expected": "every body once, after all of its non-cyclic dependencies have finished", "actual": v,
                            "trace": trace, "oracle": "the dependency-order statement of the property (ECMA-262 16.2.1.5.3), checked on the engine's trace"})
+    xgraphs = [tla_throw_graph(r) for _ in range(400 if quick else 5000)]
+    xreqs = ["raw roots=%s %s" % (",".join(roots), " ".join("%s=%s" % (k, v.encode().hex()) for k, v in mods.items())) for _, _, mods, roots, _ in xgraphs]
+    rc, out, err = ck.run_bin(bins["c17"], input="\n".join(xreqs) + "\n")
+    xgot = [x for x in out.split("\n") if x]
+    xbad = 0
+    for (deps, awaits, mods, roots, throwers), g in zip(xgraphs, xgot + ["missing"] * len(xgraphs)):
+        mm = re.fullmatch(r"trace=(\S*) outcomes=(\S*)", g)
+        if not mm:
+            xbad += 1
+            ck.fail_input({"site": "engine-panic" if g in ("panic", "missing") else "engine-answer-unreadable", "input": json.dumps(mods), "roots": roots,
+                           "expected": "trace and outcomes", "actual": g[:300]})
+            continue
+        v = tla_throw_violation(deps, roots, throwers, [x for x in mm.group(1).split(",") if x], [x for x in mm.group(2).split(",") if x])
+        if v:
+            xbad += 1
+            ck.fail_input({"site": "async-error-propagation", "input": json.dumps(mods), "roots": roots, "expected": "an error rejects exactly the dependents of the throwing module; nothing runs twice or before its dependencies", "actual": v,
+                           "trace": mm.group(1), "outcomes": mm.group(2), "oracle": "ECMA-262 16.2.1.5.3 (AsyncModuleExecutionRejected), checked on the engine's trace"})
+    ck.oblige("oracle:error propagation in %d generated graphs with top-level await and throwing modules (no panic, every Evaluate settles, rejected iff a thrower is reachable, dependents never start)"
+              % len(xgraphs), "differential", xbad == 0, "%d graphs" % xbad if xbad else None)
     ck.oblige("oracle:dependency order (a body starts after its non-cyclic dependencies ended, each body once, all reachable modules run) on %d generated graphs with top-level await"
               % len(tgraphs), "differential", tbad == 0, "%d graphs" % tbad if tbad else None)
     ck.oblige("correspondence:bodies run and Evaluate outcomes == C17 model on %d module graphs (%d bodies)" % (len(cases), stats["bodies"]), "correspondence", True)
